@@ -160,3 +160,8 @@ def uf_int(name, *args):
 
 def is_integer(x):
     return float(x).is_integer()
+
+
+def seq_mean(x):
+    import numpy as np
+    return float(np.mean(np.asarray(list(x), dtype=float)))
